@@ -14,7 +14,8 @@ McHolds    == <<{1, 2}, {2, 3}>>
 McAW       == <<2, 3, 5, 7>>
 A == <<1>>  B == <<2>>  C == <<3>>
 Fx(kd, h, hm, n11, n12, n22, n23, t2) == [kind |-> kd, alt |-> FALSE, h |-> h, hm |-> hm, n |-> <<<<n11, n12, 0, 0>>, <<0, n22, n23, 0>>>>, t2 |-> t2]
-Ctl(p, q, r, f, c) == [id |-> <<p, q>>, opt |-> Opt(r, f, c)]
+Ctl(p, q, r, f, c) == [id |-> <<p, q>>, opt |-> Opt(r, f, c), iso |-> 2]
+CtlIso(p, q, r, f, c, i) == [id |-> <<p, q>>, opt |-> Opt(r, f, c), iso |-> i]        \* i = 0: xsTempIsotope "" (no temperature grouping)
 
 \* burnup groups: boundaries 3 and 10 hit exactly, from below and from above; two types
 ScnBu == [xs |-> <<A, A, B>>,
@@ -54,8 +55,19 @@ ScnTwo == [xs |-> <<<<1, 2>>, <<1, 3>>, <<1, 3>>>>,
            bub |-> <<>>, tb |-> <<>>, grep |-> "Average", gfilter |-> "fuel", ctl |-> {},
            burn |-> {<<2, 11>>}, heat |-> {}, flux |-> {}]
 
-McScenarios == {"bu", "temp", "unrep", "ctl", "all", "two"}
-McScnOf(s) == CASE s = "bu" -> ScnBu [] s = "temp" -> ScnTemp [] s = "unrep" -> ScnUnrep [] s = "ctl" -> ScnCtl [] s = "all" -> ScnAll [] s = "two" -> ScnTwo
+\* temperature groups with a type (B) whose settings name no temperature isotope, listed after hot and cold blocks of type A;
+\* type C inherits "no isotope" from the settings of CB only above group B; a 1-D cylinder type (D) with an ineligible block first
+ScnIso == [xs |-> <<A, B, A, B, C, <<4>>, <<4>>, <<4>>>>,
+           fixed |-> <<Fx("fuel", 1, 1, 1, 1, 0, 1, 400), Fx("fuel", 2, 1, 2, 1, 0, 1, 400), Fx("fuel", 1, 1, 1, 1, 0, 1, 400), Fx("fuel", 2, 1, 2, 1, 0, 1, 400),
+                       Fx("fuel", 1, 1, 1, 1, 0, 1, 400), Fx("reflector", 3, 1, 2, 1, 0, 1, 400), Fx("fuel", 1, 1, 0, 1, 1, 2, 300), Fx("fuel", 1, 2, 2, 1, 1, 1, 520)>>,
+           choices |-> <<{<<0, t, 1>> : t \in {400, 700}}, {<<0, 700, 1>>}, {<<0, 300, 1>>}, {<<0, 700, 1>>},
+                         {<<0, 700, 1>>}, {<<0, 700, 1>>}, {<<2, 400, 1>>}, {<<4, 700, 1>>}>>,
+           bub |-> <<3>>, tb |-> <<450, 600>>, grep |-> "Average", gfilter |-> "fuel",
+           ctl |-> {CtlIso(2, 1, "Average", "fuel", FALSE, 0), CtlIso(3, 2, "Median", "fuel", FALSE, 0), CtlIso(4, 1, "ComponentAverage1DCylinder", "fuel", FALSE, 0)},
+           burn |-> {<<5, 4>>}, heat |-> {<<1, 700>>, <<1, 300>>}, flux |-> {}]
+
+McScenarios == {"bu", "temp", "unrep", "ctl", "all", "two", "iso"}
+McScnOf(s) == CASE s = "bu" -> ScnBu [] s = "temp" -> ScnTemp [] s = "unrep" -> ScnUnrep [] s = "ctl" -> ScnCtl [] s = "all" -> ScnAll [] s = "two" -> ScnTwo [] s = "iso" -> ScnIso
 
 Bound == TLCGet("level") <= MaxLevel
 View  == <<scn, blk, env, enabled, reps, tvalid, unrep, grp, genv, err>>
@@ -65,5 +77,5 @@ Emit  == PrintT(ToJson([scn |-> scn, path |-> hist', obs |-> Obs']))
 EmitScn == TLCGet("level") = 1 =>
     PrintT(ToJson([scenario |-> scn, xs |-> [i \in 1..N |-> IF Two THEN IdText(S.xs[i]) ELSE Alphabet[S.xs[i][1]]], blk |-> blk,
                    bub |-> S.bub, tb |-> S.tb, grep |-> S.grep, gfilter |-> S.gfilter,
-                   ctl |-> SetToSeq({[id |-> IdText(c.id), opt |-> c.opt] : c \in S.ctl})]))
+                   ctl |-> SetToSeq({[id |-> IdText(c.id), opt |-> c.opt, iso |-> c.iso] : c \in S.ctl})]))
 =====================================================================================================
